@@ -32,6 +32,10 @@ func runC18(c *Ctx) error {
 	for i := 0; i < 6; i++ {
 		lens = append(lens, 1000+c.Rng.Intn(60000))
 	}
+	// above 1 MiB with every residue mod 8 (a buffer that a library might split into halves or lanes)
+	for r := 0; r < 8; r++ {
+		lens = append(lens, 1<<20+8*c.Rng.Intn(1000)+r)
+	}
 	for _, n := range lens {
 		offs := []int{n % 9, (n*5 + 3) % 9}
 		if n > maxLen {
@@ -70,7 +74,9 @@ func runC18(c *Ctx) error {
 					c.oracleFail("masking twice does not restore the input", "mask-involution", map[string]any{"key": key, "off": off, "len": n, "before": before})
 				}
 				tag := fmt.Sprintf("key=%x off=%d len=%d", key, off, n)
-				c.addCase("C18", VL{VB(key), VB(before), VN(off), VN(n), VB(append([]byte(nil), arr...))}, tag)
+				if n <= 1<<19 { // larger buffers: oracle only
+					c.addCase("C18", VL{VB(key), VB(before), VN(off), VN(n), VB(append([]byte(nil), arr...))}, tag)
+				}
 				c.count(tag+fmt.Sprintf("%x", before), n > 0 && !bytes.Equal(key, []byte{0, 0, 0, 0}), fmt.Sprintf("len%%64=%d", n%64/16*16), fmt.Sprintf("lenclass=%s", lenClass(n)))
 				if n == 70 && off == 7 {
 					c.sample(map[string]any{"key": fmt.Sprintf("%x", key), "off": off, "len": n, "before": fmt.Sprintf("%x", before), "after": fmt.Sprintf("%x", arr)})
